@@ -1,7 +1,8 @@
 (* Auth.v — executable model of mpgameserver/auth.py (Auth.hash_password / Auth.verify_password).
    Definitions only.  The external libraries are Section variables (oracles):
-     sha  : hashes.SHA256 digest                      b64e : base64.b64encode
+     sha  : hashes.SHA256 digest
      b64d : base64.b64decode (Err EValue = binascii.Error, a ValueError)
+   base64.b64encode is NOT an oracle: it is modelled exactly (Model/Base64.v, b64e).
      kdf  : scrypt.Scrypt(salt, length, N, r, p).derive(key_material); Err = the exception the
             constructor or derive raised (parameter validation -> ValueError).
             Scrypt.verify(km, expected) is derive + constant-time comparison (InvalidKey caught
@@ -9,7 +10,7 @@
    os.urandom(SALT_LENGTH) is the [salt] argument of hash_password.
    A Python argument is bytes, a str (carried as the result of .encode('utf-8'): a str with
    lone surrogates raises UnicodeEncodeError) or something else. *)
-From Model Require Import Base.
+From Model Require Import Base Base64.
 Open Scope Z_scope.
 
 Inductive pyarg := PBytes (b : list byte) | PStr (enc : res (list byte)) | POther.
@@ -66,7 +67,6 @@ Record prepared := { q_salt : list byte; q_len : Z; q_N : Z; q_r : Z; q_p : Z; q
 
 Section Auth.
   Variable sha : list byte -> list byte.
-  Variable b64e : list byte -> list byte.
   Variable b64d : list byte -> res (list byte).
   Variable kdf : list byte -> Z -> Z -> Z -> Z -> list byte -> res (list byte).
 
@@ -82,10 +82,12 @@ Section Auth.
     | _ => Err EType
     end.
 
-  (* the parsing part of verify_password, AS FOUND (defect D14): no field-count check
-     (IndexError) and no consistency check between salt_length / length and the data *)
+  (* the parsing part of verify_password (after the repair of D14: field count, then
+     length >= 1 and salt_length + length = len(data)).  The order of the code is kept: both
+     base64 fields are decoded before the method / version test. *)
   Definition prepare (h : list byte) : res prepared :=
     let parts := split_on colon h in
+    if negb (Nat.eqb (length parts) 4) then Err EValue else
     do kind <- index parts 0;
     do version <- index parts 1;
     do f2 <- index parts 2;
@@ -94,6 +96,7 @@ Section Auth.
     do data <- b64d f3;
     if negb (bytes_eqb kind lit_scrypt) || negb (bytes_eqb version lit_1) then Err EValue else
     do k <- unpack_params params;
+    if (k_len k <? 1) || negb (k_sl k + k_len k =? len data) then Err EValue else
     Ok {| q_salt := firstn (Z.to_nat (k_sl k)) data; q_len := k_len k; q_N := k_N k; q_r := k_r k;
           q_p := k_p k; q_expected := skipn (Z.to_nat (k_sl k)) data |}.
 
@@ -112,3 +115,29 @@ Section Auth.
     | _ => Err EType
     end.
 End Auth.
+
+(* ---- hypotheses about the external libraries; they appear as premises of the theorems ---- *)
+(* base64.b64decode inverts base64.b64encode *)
+Definition b64_roundtrip (b64d : list byte -> res (list byte)) : Prop :=
+  forall x, b64d (b64e x) = Ok x.
+(* a proper prefix of an encoding is refused or decodes to fewer bytes than were encoded *)
+Definition b64_prefix_shorter (b64d : list byte -> res (list byte)) : Prop :=
+  forall x m y, (m < length (b64e x))%nat -> b64d (firstn m (b64e x)) = Ok y -> (length y < length x)%nat.
+(* b64decode fails with binascii.Error (a ValueError) only *)
+Definition b64_err_value (b64d : list byte -> res (list byte)) : Prop :=
+  forall x e, b64d x = Err e -> e = EValue.
+(* Scrypt(...).derive returns exactly [length] bytes *)
+Definition kdf_length (kdf : list byte -> Z -> Z -> Z -> Z -> list byte -> res (list byte)) : Prop :=
+  forall salt ln N r p km d, kdf salt ln N r p km = Ok d -> len d = ln.
+(* Scrypt's constructor / derive fail with ValueError only (parameter validation) *)
+Definition kdf_err_value (kdf : list byte -> Z -> Z -> Z -> Z -> list byte -> res (list byte)) : Prop :=
+  forall salt ln N r p km e, kdf salt ln N r p km = Err e -> e = EValue.
+(* whether scrypt fails depends on the parameters, not on the key material *)
+Definition kdf_err_params (kdf : list byte -> Z -> Z -> Z -> Z -> list byte -> res (list byte)) : Prop :=
+  forall salt ln N r p km km' e, kdf salt ln N r p km = Err e -> kdf salt ln N r p km' = Err e.
+(* the digest hash_password derives for a password under a salt *)
+Definition std_digest (sha : list byte -> list byte)
+    (kdf : list byte -> Z -> Z -> Z -> Z -> list byte -> res (list byte)) (salt pw : list byte) : res (list byte) :=
+  kdf salt DIGEST_LENGTH (k_N std_params) (k_r std_params) (k_p std_params) (sha pw).
+(* exceptions that are ValueError (UnicodeEncodeError is a subclass of ValueError) or TypeError *)
+Definition value_or_type (e : err) : Prop := e = EValue \/ e = EType \/ e = EUnicode.
